@@ -11,6 +11,7 @@ CONSTANTS
   D_RenameAfterFailedStep = FALSE
   D_NoFsync = FALSE
   M_ZeroOffsetsWritten = TRUE
+  M_SyncBeforeRename = TRUE
   M_TmpStartsEmpty = TRUE
   CLen <- SegLen
   MidSaveCommits = FALSE
